@@ -568,7 +568,10 @@ def fam_c18(R, n_sets):
                 toks += ['p:%d' % ord(ch) for ch in w]
         return toks
     CB_VALUES = ['| lex | lex . a < lex . b', '| lex | lex . n << 2', '| lex | lex . a < lex . b && lex . c > lex . d',
-                 'conv :: < u32 >', '| lex | lex . a <= lex . b', '| lex | lex . a > lex . b', '| lex | lex . a - lex . b']
+                 'conv :: < u32 >', '| lex | lex . a <= lex . b', '| lex | lex . a > lex . b', '| lex | lex . a - lex . b',
+                 # the characters that open and close the parameter list, as operators in the body (one, two, three of them)
+                 '| lex | lex . a | 1', '| lex | lex . a || lex . b', '| lex | lex . a | lex . b | lex . c', '| lex | lex . a & 1 ^ lex . b',
+                 '| lex | lex . a % 2 == 0', '| lex | lex . a .. lex . b']
     for cbv in CB_VALUES:
         others = ['priority', 'ignore']
         for form in ('token', 'regex', 'skip'):
@@ -887,6 +890,9 @@ def fam_c19(R, n_random):
         add(enum(['#[logos(subpattern wb = %s)]' % rust_str('a' + look)], ['#[regex("(?&wb)c?")] A,']), 'reject', None, 'unsupported regex feature (Unicode word boundary in a subpattern)')
         add(enum(['#[logos(skip(%s))]' % rust_str('q+' + look)], ['#[token("b")] B,']), 'reject', None, 'unsupported regex feature (Unicode word boundary in a skip)')
     add(enum([], ['#[regex("a{1001}{1001}{1001}")] A,']), 'reject', None, 'huge repetition (resource exhaustion)')
+    # repetition counts whose product does not fit into a usize: the default priority is computed before anything could refuse the pattern
+    add(enum([], ['#[regex("(a{4294967295}){4294967295}")] A,']), 'reject', None, 'repetition counts whose product overflows usize (resource exhaustion)')
+    add(enum([], ['#[regex("(a{4294967295}){4294967295}b")] A,']), 'reject', None, 'repetition counts whose product overflows usize, in a sequence (resource exhaustion)')
     # `type` items defined in terms of their own parameter, directly or through another one: substituting them never ends
     # (run in a process of their own like the resource exhaustion case); a nested but acyclic one must simply not crash
     gen = lambda items, head, variants: '\n'.join([HDR, '#[logos(%s)]' % ', '.join(items), head + ' {'] + ['    ' + v for v in variants] + ['}'])
@@ -918,7 +924,7 @@ def fam_c19(R, n_random):
     # is then directly followed by punctuation: `callback=|lex| ..`, `extras=&'static str`, `priority=-1`, `"a",|lex| ..`)
     # gets the same verdict and the same implementation
     def tight(s_):
-        return s_.replace(' = ', '=').replace(', ', ',')
+        return s_.replace(' = ', '=').replace(', ', ',').replace('| ', '|')
     for attrs, variants, head in [
             ([], ['#[regex("[0-9]+", callback = |lex| lex.slice().len())] A(usize),'], None),
             ([], ['#[regex("[0-9]+", |lex| lex.slice().len(), priority = 3)] A(usize),'], None),
@@ -933,7 +939,13 @@ def fam_c19(R, n_random):
             (["#[logos(type X = &'static str, lifetime = none)]"], ['#[token("a", |_| "")] A(X),'], 'pub enum T<X>'),
             (["#[logos(lifetime = 'a, type X = &'a str)]"], ['#[regex("a+")] A(X),'], "pub enum T<'a, X>"),
             (['#[logos(subpattern d = "[0-9]", skip " ")]'], ['#[regex("(?&d)+", callback = |lex| lex.slice().len())] A(usize),'], None),
-            (['#[logos(crate = ::logos)]'], ['#[token("a")] A,'], None)]:
+            (['#[logos(crate = ::logos)]'], ['#[token("a")] A,'], None),
+            # a closure whose body begins with punctuation (the closing `|` of the parameter list is then directly followed by it)
+            ([], ['#[regex("[0-9]+", |lex| -(lex.slice().len() as i64))] A(i64),'], None),
+            ([], ['#[regex("[a-z]+", |lex| !lex.slice().is_empty())] A(bool),'], None),
+            ([], ['#[regex("[a-z]+", callback = |lex| &lex.slice()[1..], priority = 3)] A(&\'s str),'], "pub enum T<'s>"),
+            (['#[logos(extras = u8)]'], ['#[regex("[a-z]+", |lex| *&lex.extras)] A(u8),'], None),
+            (['#[logos(error(i8, callback = |_| -1i8))]'], ['#[token("a")] A,'], None)]:
         src = enum(attrs, variants)
         if head:
             src = src.replace('pub enum T', head)
